@@ -31,6 +31,13 @@
                          (Lean `render`) for the callbacks that really happened: one `.  t` per announced task with
                          actions, one `-- t` / `!! t` per skipped task (console), one failure header per failure, the
                          complete_run sections of executed failed tasks; nothing for the zero reporter
+      C19_success_means_all_processed   exit code 0/1/2 of a run not stopped by a reported failure: every member of
+                         the closure of the selection has its final report (an exception that cuts the run short -- an
+                         uptodate callable raising, a cycle found while dispatching, KeyboardInterrupt / SystemExit from
+                         an action -- must show in the exit code: 3, or the exception propagates)
+case-format extensions of C19 (on top of runlib's): case['verbosity'] (DOIT_CONFIG verbosity), task['c19'] =
+    {utd_raises, base_exc, prints, verbosity} (see _wrap_task_dict); such cases are outside the run model M1 when an
+    exception is planted: the base acceptance is skipped for them (counted), every monitor still applies.
 request to the driver: {"model":"c19", <fields of runlib.expand(case)>, "reporter": kind, "trace": full trace,
     "exit": int, "err": ""|"cyclic"|..., "doc": [[task id, result, timed]] (json only)}
 """
@@ -47,7 +54,8 @@ import runlib
 
 PROP = 'C19'
 KINDS = ['console', 'executed-only', 'zero', 'error-only', 'json']
-KEYS = ['C19_report_order', 'C19_exec_iff_start', 'C19_truth', 'C19_end_reported', 'C19_exit', 'C19_json']
+KEYS = ['C19_report_order', 'C19_exec_iff_start', 'C19_truth', 'C19_end_reported', 'C19_exit', 'C19_json',
+        'C19_success_means_all_processed']
 OUT_KEY = 'C19_output'
 
 META = {
@@ -91,7 +99,9 @@ META = {
                   'system FSys is proved, not replayed against process traces.',
     'rule': 'runlib random DAGs of 3-8 tasks (all edge kinds, groups), oracle per task (run/up-to-date/error, ignored, '
             'ok/failed/error, how the action fails), --continue on/off, reporter drawn from the five built-ins, runner '
-            'serial | thread k=1..4 x schedule policy | process k=2,3; exhaustive tier: every outcome assignment of '
+            'serial | thread k=1..4 x schedule policy | process k=2,3; 1 in 12 graphs may be cyclic; 8% of the cases plant an '
+            'exception that leaves run_tasks (uptodate callable raising; KeyboardInterrupt / SystemExit from an action, '
+            'serial); 35% of the json cases have printing actions at verbosity 2 (global or per task); exhaustive tier: every outcome assignment of '
             'small fixed graphs x --continue x reporter, and every completion order of small thread cases; '
             'non-trivial = something got a final report and the case has an edge or a non-success outcome; distinct = '
             'distinct rendered case + reporter + schedule',
@@ -201,14 +211,79 @@ def tee_class(kind):
     return Tee
 
 
+class _Harness19Abort(RuntimeError):
+    pass
+
+
+def _extras(t):
+    return t.get('c19') or {}
+
+
+def _wrap_task_dict(d, t, n, rec):
+    """C19's additions to the task dict runlib builds (case format extension, per task under the key 'c19'):
+      utd_raises: True            the task's `uptodate` callable raises (an exception leaves run_tasks)
+      base_exc: 'KeyboardInterrupt' | 'SystemExit'    the action raises it after its start mark
+      prints: True                the action writes to stdout and stderr before doing what runlib's action does
+      verbosity: 0|1|2            the task's own `verbosity`"""
+    x = _extras(t)
+    if not x or 'actions' not in d:
+        return d
+    if x.get('utd_raises'):
+        def boom():
+            raise _Harness19Abort('uptodate callable of task %d raises' % n)
+        d['uptodate'] = list(d.get('uptodate') or []) + [boom]
+    orig = d['actions'][0]
+    if x.get('base_exc'):
+        exc_name = x['base_exc']
+
+        def act_abort():
+            rec.ev(['start', n, rec.who()])
+            if exc_name == 'SystemExit':
+                raise SystemExit(7)
+            raise KeyboardInterrupt()
+        act_abort.__name__ = 'act_abort_%d' % n
+        d['actions'] = [act_abort]
+    elif x.get('prints'):
+        def act_print():
+            sys.stdout.write('stdout of task %d\n' % n)
+            sys.stderr.write('stderr of task %d\n' % n)
+            return orig()
+        act_print.__name__ = 'act_print_%d' % n
+        d['actions'] = [act_print]
+    if x.get('verbosity') is not None:
+        d['verbosity'] = x['verbosity']
+    return d
+
+
 def run_impl19(case, keep_raw=True):
-    """runlib.run_impl with the built-in reporter case['reporter'] (tee'd) instead of runlib.RecReporter"""
+    """runlib.run_impl with the built-in reporter case['reporter'] (tee'd) instead of runlib.RecReporter, and with
+    C19's case-format extensions (per task: _wrap_task_dict; per case: 'verbosity' = DOIT_CONFIG verbosity)"""
     kind = case.get('reporter', 'console')
     orig = runlib.build_namespace
 
     def build(c, rec):
         ns = orig(c, rec)
         ns['DOIT_CONFIG']['reporter'] = tee_class(kind)
+        if c.get('verbosity') is not None:
+            ns['DOIT_CONFIG']['verbosity'] = c['verbosity']
+        if any(_extras(t) for t in c['tasks']):
+            gen = ns['task_gen']
+            real = [(n, t) for n, t in enumerate(c['tasks']) if t['kind'] != 'group']
+            groups_with_dict = [t for t in c['tasks'] if t['kind'] == 'group' and t['task_dep']]
+
+            def task_gen():
+                # runlib yields one dict per non-group task in definition order (+ one for a group with task_dep)
+                by_name = {}
+                for n, t in real:
+                    nm = t['name']
+                    by_name[(t['group'], nm.split(':', 1)[1]) if t['kind'] == 'sub' else (nm, None)] = (n, t)
+                for d in gen():
+                    key = (d.get('basename'), d.get('name'))
+                    if 'actions' in d and key in by_name:
+                        n, t = by_name[key]
+                        d = _wrap_task_dict(d, t, n, rec)
+                    yield d
+            ns['task_gen'] = task_gen
         return ns
     runlib.build_namespace = build
     _LAST.clear()
@@ -218,7 +293,36 @@ def run_impl19(case, keep_raw=True):
         runlib.build_namespace = orig
     obs['out'] = dict(_LAST)
     obs['full'] = full_trace(obs.get('raw'), obs['trace'])
+    # ground truth: did an exception leave run_tasks because of something the harness planted?
+    ab = None
+    for e in obs['full']:
+        t = case['tasks'][e[1]] if len(e) > 1 and isinstance(e[1], int) and e[1] < len(case['tasks']) else None
+        if t is None:
+            continue
+        if e[0] == 'get_status' and _extras(t).get('utd_raises') and \
+                not any(x[0] in runlib.TERMINAL and x[1] == e[1] for x in obs['full']):
+            # select_task got as far as dep_manager.get_status (the task was neither ignored nor unmet): the callable ran
+            ab = 'uptodate callable of %s raised' % t['name']
+            break
+        if e[0] == 'start' and _extras(t).get('base_exc'):
+            ab = 'action of %s raised %s' % (t['name'], _extras(t)['base_exc'])
+            break
+    obs['aborted'] = ab
     return obs
+
+
+def has_plant(case):
+    return any(_extras(t).get('utd_raises') or _extras(t).get('base_exc') for t in case['tasks'])
+
+
+def effective_exit(obs):
+    """exit code as the shell sees it: a BaseException that escapes DoitMain.run ends the interpreter with a non-zero
+    status (normalised to 3)"""
+    if obs['exit'] is None and (obs.get('err') or '').startswith('crash:'):
+        return 3
+    if isinstance(obs['exit'], int) and obs['exit'] > 3:
+        return 3          # SystemExit(7) of a planted action: any status that does not claim 0/1/2 is fine
+    return obs['exit']
 
 
 def full_trace(raw, canonical):
@@ -301,8 +405,9 @@ def c19_request(case, obs):
             and obs['selected'] != m['sel']:
         req['sel'] = list(obs['selected'])
     req['trace'] = obs['full']
-    req['exit'] = obs['exit'] if isinstance(obs['exit'], int) and obs['exit'] >= 0 else 99
-    req['err'] = obs['err'] or ''
+    ex = effective_exit(obs)
+    req['exit'] = ex if isinstance(ex, int) and ex >= 0 else 99
+    req['err'] = obs['err'] or ('crash:planted' if obs.get('aborted') else '')
     if 'doc' in obs:
         req['doc'] = obs['doc'] if obs['doc'] is not None else [[999999, None, False]]
     return req
@@ -320,8 +425,8 @@ def py_monitor(case, obs):
     m = case.get('model') or runlib.expand(case)
     res = {}
     kinds = [e[2] for e in full if e[0] == 'failure']
-    exp = 3 if obs['err'] else exit_spec(kinds)
-    res['C19_exit'] = obs['exit'] == exp
+    exp = 3 if (obs['err'] or obs.get('aborted')) else exit_spec(kinds)
+    res['C19_exit'] = effective_exit(obs) == exp
     ok = True
     seen_status, seen_exec, seen_term, started = set(), set(), set(), set()
     for e in full:
@@ -352,25 +457,35 @@ def py_monitor(case, obs):
 def observe(case, keep_raw=True):
     """run the implementation and digest the reporter output"""
     obs = run_impl19(case, keep_raw=keep_raw)
+    if obs['err'] is None and obs['exit'] == 3 and not obs.get('aborted'):
+        # exit 3 without a recognisable message on the captured stderr: with the thread runner the "ERROR: Cyclic ..."
+        # line can land in the stderr Writer of a python-action that is still in flight (F-C17a).  The graph itself says
+        # whether a dependency cycle exists.
+        m = case.get('model') or runlib.expand(case)
+        if not runlib.is_acyclic(runlib.dynamic_edges(runlib._all_deliver(m, case))):
+            obs['err'] = 'cyclic'
+            obs['err_from_graph'] = True
     ids = runlib.task_index(case)
     out = obs['out']
     kind = case.get('reporter', 'console')
     text = out.get('text')
     obs['problems'] = []
     if kind == 'json':
+        outside = bool(obs['err'] or obs.get('aborted'))     # the run ended with an error outside task execution
         if text is None:
-            if obs['err'] is None:
+            if not outside:
                 obs['problems'].append('the JSON reporter never completed (no document)')
-            obs['doc'] = None
+                obs['doc'] = None
         else:
             doc, prob = parse_json_doc(text, ids)
-            obs['doc'] = doc
-            if prob:
+            if doc is not None or not outside:
+                obs['doc'] = doc
+            if prob and not outside:
                 obs['problems'].append(prob)
-            if obs['err'] is None and (out.get('stray_out') or out.get('stray_err')):
+            if not outside and (out.get('stray_out') or out.get('stray_err')):
                 obs['problems'].append('output besides the JSON document: stdout %r stderr %r'
                                        % (out.get('stray_out', '')[:80], out.get('stray_err', '')[:80]))
-        if out.get('raised'):
+        if out.get('raised') and not outside:
             obs['problems'].append('JsonReporter.complete_run raised %s' % out['raised'])
     else:
         obs['tokens'] = parse_console(text or '', ids)
@@ -461,7 +576,9 @@ def judge(case, obs, ans, base_ans, st, shrink_left):
                           'correspondence JsonReporter: order of the real task list %s differs from the model\'s %s'
                           % (obs['doc'], ans.get('json')))
             return 0
-    if base_ans is not None and 'error' not in base_ans:
+    if has_plant(case):
+        st.count('model:not_applicable(planted exception)')
+    elif base_ans is not None and 'error' not in base_ans:
         if base_ans.get('skipped'):
             st.count('model_search_skipped')
         st.count('model:accepted' if base_ans.get('accepted') else 'model:rejected')
@@ -473,6 +590,16 @@ def judge(case, obs, ans, base_ans, st, shrink_left):
                              'reporter; matched %s events, model could emit %s'
                           % (kind, base_ans.get('matched'), base_ans.get('expected')))
     return 0
+
+
+def render19(case):
+    lines = runlib.render(case).split('\n')
+    for t in case['tasks']:
+        if _extras(t):
+            lines.append('   C19 extras %s: %s' % (t['name'], json.dumps(_extras(t), sort_keys=True)))
+    if case.get('verbosity') is not None:
+        lines.append('   DOIT_CONFIG verbosity = %s' % case['verbosity'])
+    return lines
 
 
 def make_witness(case, obs, ans):
@@ -488,7 +615,7 @@ def make_witness(case, obs, ans):
             det[k] = ans.get(k)
     return {'case': {k: v for k, v in case.items() if k != 'model'} | {'schedule': obs.get('schedule')},
             'reporter': case.get('reporter'),
-            'rendered': runlib.render(case).split('\n'), 'trace': obs['full'],
+            'rendered': render19(case), 'aborted': obs.get('aborted'), 'trace': obs['full'],
             'trace_text': runlib.render_trace(case, obs['full']),
             'exit': obs['exit'], 'err': obs['err'], 'stderr': obs.get('stderr', '')[-300:],
             'reporter_output': (obs['out'].get('text') or '')[:1500],
@@ -518,6 +645,12 @@ def count19(st, case, obs):
     if 'failed' in kinds and len(kinds) > 1:
         first = [e[2] for e in obs['full'] if e[0] == 'failure'][0]
         st.count('mixed_failures:first=%s' % ('failed' if first == 'failed' else 'error-kind'))
+    for t in case['tasks']:
+        for k, v in _extras(t).items():
+            st.count('extra:%s=%s' % (k, v))
+    if case.get('verbosity') is not None:
+        st.count('extra:global_verbosity=%s' % case['verbosity'])
+    st.count('aborted:%s' % ('no' if not obs.get('aborted') else obs['aborted'].split(' of ')[0]))
     if case['runner'] == 'process':
         ex = [i for i, e in enumerate(obs['full']) if e[0] == 'execute']
         st.count('process:forwarded_execute', len(ex))
@@ -528,6 +661,29 @@ def nontrivial19(case, obs):
     has_edge = any(m['taskDep'][i] or m['setup'][i] or m['calcDep'][i] for i in range(m['n']))
     odd = any(t['outcome'] != 'ok' or t['status'] != 'run' or t['ignored'] for t in case['tasks'])
     return (has_edge or odd) and any(e[0] in runlib.TERMINAL for e in obs['full'])
+
+
+def decorate(c, rng):
+    """C19's additions to a generated case: planted exceptions (8%), loud actions under the JSON reporter (35% of the
+    json cases)"""
+    real = [t for t in c['tasks'] if t['kind'] != 'group']
+    r = rng.random()
+    if r < 0.05:
+        rng.choice(real).setdefault('c19', {})['utd_raises'] = True
+    elif r < 0.08 and c['runner'] == 'serial':
+        t = rng.choice(real)
+        t.setdefault('c19', {})['base_exc'] = rng.choice(['KeyboardInterrupt', 'SystemExit'])
+    if c.get('reporter') == 'json' and rng.random() < 0.35:
+        if rng.random() < 0.5:
+            c['verbosity'] = 2
+        for t in real:
+            if _extras(t).get('base_exc'):
+                continue
+            if rng.random() < 0.6:
+                t.setdefault('c19', {})['prints'] = True
+                if c.get('verbosity') is None or rng.random() < 0.3:
+                    t['c19']['verbosity'] = rng.choice([2, 2, 1])
+    return c
 
 
 def eval_batch(batch):
@@ -548,6 +704,7 @@ def eval_batch(batch):
             c['policy'] = runlib.gen_policy(rng, c['nproc'])
         c['seed'] = seed
         c['reporter'] = kind
+        decorate(c, rng)
         pairs.append((c, observe(c)))
     for c in batch.get('exhaustive', []):
         c = dict(c)
@@ -571,7 +728,7 @@ def eval_batch(batch):
     base = runlib.ask_model(base_pairs) if not batch.get('no_base') else [None] * len(pairs)
     shrink_left = batch.get('shrink_s', 12.0)
     for (c, o), a, b in zip(pairs, answers, base):
-        st.case({'case': runlib.render(c).split('\n'), 'reporter': c.get('reporter'), 'schedule': o.get('schedule')},
+        st.case({'case': render19(c), 'reporter': c.get('reporter'), 'schedule': o.get('schedule')},
                 nontrivial19(c, o))
         count19(st, c, o)
         if len(st.violations) >= 2:
@@ -590,7 +747,7 @@ def eval_batch(batch):
 KNOBS = {'p_failed': 0.22, 'p_exc': 0.16, 'p_error': 0.1, 'p_ignored': 0.1, 'p_utd': 0.18, 'p_cont': 0.6,
          'p_dup_sel': 0.0, 'p_teardown': 0.15, 'n_max': 8}
 
-OUTCOMES = ['ok', 'failed', 'error', 'utd', 'ignored', 'staterr']
+OUTCOMES = ['ok', 'failed', 'error', 'utd', 'ignored', 'staterr', 'utdraise']
 
 
 def _task(name, oc, **kw):
@@ -604,6 +761,8 @@ def _task(name, oc, **kw):
         t['status'] = 'utd'
     elif oc == 'ignored':
         t['ignored'] = True
+    elif oc == 'utdraise':
+        t['c19'] = {'utd_raises': True}
     elif oc == 'staterr':
         t['status'] = 'error'
         t['file_dep'] = ['missing_%s' % name]      # runlib's convention: get_status answers 'error' (missing file_dep)
@@ -653,15 +812,16 @@ def thread_scope():
 
 def plan(ctx, scale=1.0):
     quick = ctx.tier == 'quick'
-    n_serial = int((260 if quick else 3500) * ctx.boost * scale)
-    n_thread = int((160 if quick else 2500) * ctx.boost * scale)
-    n_proc = int((10 if quick else 80) * min(ctx.boost, 2) * scale)
+    n_serial = int((600 if quick else 8000) * ctx.boost * scale)
+    n_thread = int((360 if quick else 6000) * ctx.boost * scale)
+    n_proc = int((15 if quick else 150) * min(ctx.boost, 2) * scale)
     rng = ctx.rng
     gen = []
     for i in range(n_serial):
-        gen.append((rng.randrange(1 << 60), dict(KNOBS, runner='serial'), KINDS[i % 5]))
+        gen.append((rng.randrange(1 << 60), dict(KNOBS, runner='serial', allow_cycle=(i % 12 == 0)), KINDS[i % 5]))
     for i in range(n_thread):
-        gen.append((rng.randrange(1 << 60), dict(KNOBS, runner='thread', gen_policy=True), KINDS[(i + 2) % 5]))
+        gen.append((rng.randrange(1 << 60), dict(KNOBS, runner='thread', gen_policy=True, allow_cycle=(i % 12 == 5)),
+                    KINDS[(i + 2) % 5]))
     rng.shuffle(gen)
     size = 25 if quick else 60
     pool = [{'gen': gen[i:i + size], 'shrink_s': 10.0} for i in range(0, len(gen), size)]
@@ -696,7 +856,7 @@ def exhaustive_batches(ctx):
     quick = ctx.tier == 'quick' and ctx.boost <= 1
     cases = []
     if quick:
-        cases += small_scope('fan', ['ok', 'failed', 'error', 'utd', 'ignored'])
+        cases += small_scope('fan', ['ok', 'failed', 'error', 'utd', 'utdraise'])
         cases += small_scope('pair')
         scope = {'graphs': ['fan (5 outcomes)', 'pair (6 outcomes)']}
     else:
@@ -743,9 +903,12 @@ def replay(ctx, data):
     case = dict(case)
     case.setdefault('reporter', w.get('reporter') or 'console')
     case['model'] = runlib.expand(case)
-    print(runlib.render(case))
+    print('\n'.join(render19(case)))
     print('reporter: %s   runner: %s   continue: %s' % (case['reporter'], case['runner'], case.get('cont')))
+    saved = (sys.stdout, sys.stderr)
     obs = observe(case)
+    time.sleep(0.1)      # a python-action abandoned in a worker thread may still put back the stream it saw (F-C17a)
+    sys.stdout, sys.stderr = saved
     ans = ask19([(case, obs)])[0]
     wit = make_witness(case, obs, ans)
     print('exit=%s err=%s (expected exit %s for failure kinds %s)'
